@@ -3,12 +3,14 @@ package main
 func init() {
 	register(&propInfo{
 		ID:          "C11",
-		Explanation: "Aliasing is structural and is decided for the whole closure. Decode side: a forward alias-taint analysis over every function that handles the input bytes (sources: the []byte parameters of all Codec.Read implementations, Unmarshal, the Descriptor walker and the plenccore readers, propagated interprocedurally to callees) proves that no value sharing memory with the input buffer is stored into the target, codec state, a map, a shared table/pool, or returned (string([]byte), []byte(string) and append onto a fresh slice are the only taint killers; slicing, unsafe.String/Slice, pointer casts, uintptr arithmetic and phi propagate), and that nothing stores, copies or appends into the input. Encode side: every Store in the encode closure targets the function's own locals (never the value being marshalled, codec state or globals), the output buffer is only ever appended to (no reslice, no index) and every returned buffer is the data parameter extended by appends.",
+		Explanation: "Aliasing is structural and is decided for the whole closure. Decode side: a forward alias-taint analysis over every function that handles the input bytes (sources: the []byte parameters of all Codec.Read implementations, Unmarshal, the Descriptor walker and the plenccore readers, propagated interprocedurally to callees) proves that no value sharing memory with the input buffer is stored into the target, codec state, a map, a shared table/pool, or returned (string([]byte), []byte(string) and append onto a fresh slice are the only taint killers; slicing, unsafe.String/Slice, pointer casts, uintptr arithmetic and phi propagate), and that nothing stores, copies or appends into the input. Encode side: every Store in the encode closure targets the function's own locals (never the value being marshalled, codec state or globals), the output buffer is only ever appended to (no reslice, no index) and every returned buffer is the data parameter extended by appends. (B.rawview) no unsafe.Slice/unsafe.String view is made over the data parameter in the decode closure.",
 		NotDecided:  "Behaviour of user-supplied codecs (A4); what Go's append does with the caller's spare capacity (allowed by the property).",
 		Assumptions: []string{"A3", "A4", "A5"},
 		Run: func(c *Ctx) {
 			ruleNoAliasDecode(c, nil)
 			c.Floor("X.taint.store", 25)
+			// a string or slice header made over the input's memory is an alias the taint rules cannot see through
+			ruleRawViews(c, c.P.decodeClosure(), true)
 			ruleEncodeRO(c)
 			ruleAppendOnly(c)
 		},
